@@ -55,6 +55,23 @@ impl Prop for C17 {
             let gen = fam.gen;
             f.push(Family { name: fam.name, mode: fam.mode, bounds: fam.bounds, gen: Box::new(move |ch| gen(ch).map(|s| Case { seq: s, must: Vec::new() })) });
         }
+        // the single-line generators of C01 that do not depend on a configuration: boundary values of
+        // every kind combined by operators, every word of config.json in 7 positions, all unit pairs
+        {
+            use crate::runner::Prop as _;
+            for fam in super::c01::C01.families(tier) {
+                if !["binary-boundaries", "config-words", "config-unit-pairs", "rule-patterns"].contains(&fam.name.as_str()) {
+                    continue;
+                }
+                let gen = fam.gen;
+                f.push(Family {
+                    name: fam.name,
+                    mode: fam.mode,
+                    bounds: format!("{} (the C01 generator, here with the structural oracle on the highlight tokens)", fam.bounds),
+                    gen: Box::new(move |ch| gen(ch).map(|c| Case { seq: SeqCase { lang: c.lang, text: c.text, now: c.now }, must: Vec::new() })),
+                });
+            }
+        }
         // position-tagged lines: arithmetic embedded in multi-byte text words, followed by a comment
         f.push(Family::new(
             "tagged",
